@@ -334,6 +334,14 @@ def handle (line : String) : String :=
         let all := [d1, d2, d3, d3b, d4, d5, d6, d7].filter (· != "")
         if all.isEmpty then "OK" else String.intercalate " ; " all
       | _, _, _ => "BAD args"
+    | ["resext", _hx, _lim] =>
+      match goRes.splitOn " " with
+      | [c1, c2, same] =>
+        let a := if same != "T" then "SPEC C14:Extend-on-a-detection-result-changed-the-tree ; SPEC C04:result-aliases-the-tree ; SPEC C03:result-aliases-the-tree" else ""
+        let b := if c1 != c2 then "SPEC C03:path-contains-a-node-outside-the-registered-tree ; SPEC C04:same-input-classified-differently ; SPEC C14:earlier-result-changed" else ""
+        let all := [a, b].filter (· != "")
+        if all.isEmpty then "OK" else String.intercalate " ; " all
+      | _ => "SPEC C01:no-result(" ++ goRes ++ ")"
     | ["xlookup", script, nm] =>
       match unhex nm, applyScript script Gen.builtin with
       | some name, some T =>
